@@ -1222,6 +1222,31 @@ bool dispatch_api(State& st, const std::string& op, const json& a, json& ret)
         ret = true;
         return true;
     }
+    if (op == "bulk_fill")
+    {
+        // A long list: n tracks created through the API (minimal snapshots, paths "<prefix>/<i>.mp3") and added to one crate, in
+        // that order.  {"c": crate handle, "n": N, "prefix": hex, "keep": [i...]}: the tracks at the indices in "keep" stay
+        // available as handles "<as>_<i>".  Returns the ids in insertion order.
+        auto& c = st.C(a.at("c").get<std::string>());
+        long long n = a.at("n").get<long long>();
+        std::string prefix = js(a.at("prefix"));
+        std::string as = a.value("as", std::string("bulk"));
+        std::set<long long> keep;
+        if (a.contains("keep"))
+            for (auto& k : a["keep"]) keep.insert(k.get<long long>());
+        json ids = json::array();
+        for (long long i = 0; i < n; ++i)
+        {
+            dj::track_snapshot sn;
+            sn.relative_path = prefix + "/" + std::to_string(i) + ".mp3";
+            auto t = st.D().create_track(sn);
+            c.add_track(t);
+            ids.push_back(t.id());
+            if (keep.count(i)) st.tracks.insert_or_assign(as + "_" + std::to_string(i), t);
+        }
+        ret = ids;
+        return true;
+    }
     if (op == "crate_query")
     {
         auto& c = st.C(a.at("c").get<std::string>());
